@@ -650,6 +650,8 @@ def rule_depth_longest(ctx: Ctx) -> None:
 
 
 def run(ctx: Ctx) -> None:
+    from ..rules import shapes as _shp18
+    _shp18.rule_reset_depth_model(ctx)
     rule_reg_depth_aligned(ctx)
     from .c13 import rule_rewrite_order
     rule_rewrite_order(ctx)   # the normalisation this property relies on (unwrap_nodes expands every wrapper, in order)
@@ -733,6 +735,7 @@ def _edit_unitary_complement(src: str) -> str:
 
 
 KNOCKOUTS = [
+    Knockout("reset-depth-intervals-from-the-first-cut", METRICS, sub_once("                m_list[j + 1] - m_list[j] for j in range(len(m_list) - 1)", "                m_list[j + 1] - m_list[0] for j in range(len(m_list) - 1)"), "metric.reset-model", "longest"),
     Knockout("reset-depth-penalty-per-emitter", METRICS, lambda src: sub_once("        depth = max(reset_depths.values())\n        val = self.depth_penalty(depth)\n", "        val = max(reset_depths.values())\n")(sub_once("            reset_depths[e_i] = max(reset_intervals)\n", "            reset_depths[e_i] = self.depth_penalty(max(reset_intervals))\n")(src)), "metric.source", "per emitter"),
     Knockout("reg-depth-from-sorted-output-nodes", DAG, sub_once("        for i in range(len(self._register_depth[reg_type])):\n            output_node = f\"{reg_type}{i}_out\"\n            self._register_depth[reg_type][i] = self._max_depth(output_node)\n", "        output_nodes = sorted(n for n in self.node_dict.get(\"Output\", []) if self.dag.nodes[n][\"op\"].reg_type == reg_type)\n        self._register_depth[reg_type] = [self._max_depth(n) for n in output_nodes]\n"), "depth.index-aligned", "rebuilt"),
     Knockout("unitary-count-by-complement", METRICS, _edit_unitary_complement, "table.labels", "complement query"),
